@@ -5,6 +5,7 @@
 #include <Vector/BLF.h>
 #include <sstream>
 #include "hcommon.h"
+#include "memfile.h"
 #include "rng.h"
 #include "twin.h"
 #include "watchdog.h"
@@ -40,11 +41,17 @@ int main(int argc, char ** argv) {
         uint32_t C = tiny ? (16u << r.below(6)) : (r.chance(1, 2) ? 0x20000 : 4096);
         int level = r.chance(1, 2) ? 0 : 1 + r.below(9);
         int n = 20 + r.below(tiny ? 60 : 400);
-        std::vector<long> sizes; for (int i = 0; i < n; i++) sizes.push_back(r.chance(1, 2) ? -1 : (long)r.below(tiny ? 300 : 3000));
+        std::vector<long> sizes; for (int i = 0; i < n; i++) sizes.push_back(r.chance(1, 3) ? -1 : r.chance(1, 3) ? -2 : (long)r.below(tiny ? 300 : 3000));   // -2: LinMessage2 in a shorter layout version
         std::ostringstream cfg; cfg << "kind=" << kind << " profile=" << profile << " C=" << C << " level=" << level << " n=" << n << " tiny=" << tiny;
         wd::note(cfg.str().c_str());
         if (kind < 2) {
-            twin::Bytes st; for (int i = 0; i < n; i++) { twin::Bytes o = sizes[i] < 0 ? twin::can_message(1000 + i) : twin::app_text(1000 + i, (size_t)sizes[i]); st.insert(st.end(), o.begin(), o.end()); }
+            twin::Bytes st;
+            for (int i = 0; i < n; i++) {
+                twin::Bytes o;
+                if (sizes[i] == -2) { LinMessage2 m; m.apiMajor = 1 + i % 2; m.objectTimeStamp = i; MemFile mf; m.write(mf); o = mf.buf; }
+                else o = sizes[i] < 0 ? twin::can_message(1000 + i) : twin::app_text(1000 + i, (size_t)sizes[i]);
+                st.insert(st.end(), o.begin(), o.end());
+            }
             twin::save(path, twin::wrap(st, C, level));
             File f;
             if (tiny) f.verifSetLimits(1 + r.below(4), 64 << r.below(5));
@@ -57,6 +64,7 @@ int main(int argc, char ** argv) {
                 // scribble over every member we can reach, then free it at once
                 o->objectType = ObjectType::UNKNOWN; o->objectSize = 0xdeadbeef; o->headerSize = 0; o->headerVersion = 0xffff; o->signature = 0;
                 if (CanMessage * m = dynamic_cast<CanMessage *>(o)) { m->id = ~0u; m->data.fill(0xee); m->objectTimeStamp = ~0ULL; m->channel = 0xffff; m->dlc = 0xff; m->flags = 0xff; }
+                else if (LinMessage2 * l = dynamic_cast<LinMessage2 *>(o)) { l->apiMajor = 9; l->data.fill(0xee); l->crc = 0xffff; l->objectTimeStamp = ~0ULL; }
                 else if (AppText * t = dynamic_cast<AppText *>(o)) { t->source = ~0u; t->textLength = ~0u; std::fill(t->text.begin(), t->text.end(), '#'); t->text.clear(); t->objectTimeStamp = ~0ULL; }
                 delete o; objects++;
                 busy(r, profile);
@@ -71,7 +79,8 @@ int main(int argc, char ** argv) {
             f->open(path.c_str(), std::ios_base::out);
             for (int i = 0; i < n; i++) {
                 ObjectHeaderBase * o;
-                if (sizes[i] < 0) { CanMessage * m = new CanMessage; m->id = i; m->objectTimeStamp = i; o = m; } else { AppText * t = new AppText; t->source = i; t->text.assign((size_t)sizes[i], 'w'); o = t; }
+                if (sizes[i] == -2) { LinMessage2 * l = new LinMessage2; l->apiMajor = 1 + i % 2; l->objectTimeStamp = i; o = l; }
+                else if (sizes[i] < 0) { CanMessage * m = new CanMessage; m->id = i; m->objectTimeStamp = i; o = m; } else { AppText * t = new AppText; t->source = i; t->text.assign((size_t)sizes[i], 'w'); o = t; }
                 f->write(o);       // never referenced again
                 poll(*f, true); polls++; objects++;
                 busy(r, profile);
